@@ -47,10 +47,10 @@ COMPONENTS = {
 PROBES = [
     "chunked_on_after_passing_break", "next_chunk_at_end_of_data", "mode_toggle_with_cached_break",
     "slice_of_slice", "slice_in_chunked_parent", "overread_inside_integer_at_break",
-    "length_of_a_subclass_type", "next_chunk_outside_chunked_mode", "slice_negative_argument", "next_chunk_moves_backwards",
+    "two_reader_threads_interleaved", "length_of_a_subclass_type", "next_chunk_outside_chunked_mode", "slice_negative_argument", "next_chunk_moves_backwards",
     "exhausted_read",
 ]
-FAULT_KINDS = ["end_of_chunk_mid_read", "end_of_data_mid_read"]
+FAULT_KINDS = ["preemption_between_lines", "end_of_chunk_mid_read", "end_of_data_mid_read"]
 
 READ_OPS = [
     "get_byte", "get_bytes", "get_char", "get_short", "get_three", "get_int", "get_string",
@@ -112,7 +112,58 @@ def generate(streams, tier):
                 ops.append([who, op, rng.randrange(0, len(data) + 4), rng.random() < 0.5])
             else:
                 ops.append([who, op])
-    return {"data": data, "ops": ops, "buffer": rng.choice(["bytes", "bytes", "bytearray", "memoryview", "window"])}
+    plan = {"data": data, "ops": ops, "buffer": rng.choice(["bytes", "bytes", "bytearray", "memoryview", "window"])}
+    if rng.random() < 0.02:
+        # two caller threads, each with a reader of its own over its own copy of the data (sim/interleave.py)
+        plan["interleave"] = [rng.randrange(1, 9) for _ in range(rng.randrange(4, 80))]
+    return plan
+
+
+def concurrent_readers(plan, EoReader, res, tr):
+    """The plan's operations (those of reader #0, slices left out) run by two caller threads at the same time, each on
+    a reader of its own; each must see exactly what a single caller sees."""
+    from ..interleave import Interleaver, InterleaveStall
+    ops = [op[1:] for op in plan["ops"] if op[1] != "slice"]
+    if not ops:
+        return None
+    data = bytes(plan["data"])
+
+    def caller():
+        r = EoReader(bytes(data))
+        seen = []
+        for op in ops:
+            try:
+                if op[0] == "set_mode":
+                    r.chunked_reading_mode = bool(op[1])
+                    out = None
+                elif op[0] == "next_chunk":
+                    out = r.next_chunk()
+                else:
+                    out = getattr(r, op[0])(*op[1:])
+                    if isinstance(out, (bytearray, memoryview)):
+                        out = bytes(out)
+            except Exception as e:  # noqa
+                out = ("raised", type(e).__name__)
+            seen.append((out, r.position, r.remaining))
+        return seen
+
+    alone = caller()
+    il = Interleaver(plan["interleave"], lambda filename: "eolib-verif-" in filename)
+    try:
+        results, errors = il.run(caller, caller)
+    except InterleaveStall as e:
+        return ("concurrent-readers", "stalled", f"two caller threads with a reader each did not both finish: {e}")
+    res.count("probe.two_reader_threads_interleaved")
+    res.count("fault.preemption_between_lines", il.switches)
+    tr.ev("interleave", il.switches, tuple(il.lines))
+    for i in (0, 1):
+        if errors[i] is not None or results[i] != alone:
+            k = next((j for j, (a, b) in enumerate(zip(results[i] or [], alone)) if a != b), None)
+            return ("concurrent-readers", ops[k][0] if k is not None else "run",
+                    f"caller thread {i} reading from its own reader while another thread read from another one saw "
+                    f"{results[i][k] if k is not None else errors[i]!r} at operation {k} ({ops[k] if k is not None else ''}); alone it sees "
+                    f"{alone[k] if k is not None else ''} (schedule {plan['interleave'][:12]}..., {il.switches} switches)")
+    return None
 
 
 def _abstract(m):
@@ -263,6 +314,10 @@ def execute(plan, env):
         check_all(step, name)
         if res.violation:
             break
+    if plan.get("interleave") and res.violation is None:
+        v = concurrent_readers(plan, EoReader, res, tr)
+        if v:
+            fail(v[0], v[1], False, v[2], len(plan["ops"]))
     res.digest = tr.digest()
     res.steps = tr.steps
     res.sample = {"data_hex": bytes(plan["data"]).hex(), "first_ops": [str(o) for o in plan["ops"][:8]], "n_ops": len(plan["ops"])}
